@@ -92,6 +92,21 @@ fn check_cnf(clauses: &[Clause], cn: &mut Cn, with_models: bool) -> Option<(Stri
                 if r2 != r3 {
                     return Some(("bdd-assign-not-same-diagram".into(), format!("order {:?} model {:?}: compiling under the assignment and compile-then-condition give different diagrams", order, a)));
                 }
+                // ask, disturb, ask again: compiling the plain formula once more on the same builder (from
+                // the same object and from an equal formula constructed separately) after a compilation
+                // under an assignment must give the first answer again
+                if !crate::core::disabled("recompile") {
+                    let again = if code % 2 == 0 { guarded(|| b.compile_cnf(&cnf)) } else { guarded(|| b.compile_cnf(&to_cnf(clauses))) };
+                    cn.bdd_compiles += 1;
+                    match again {
+                        Ok(r5) => {
+                            if bdd_tt(r5, nv) != f || r5 != r {
+                                return Some(("bdd-cnf".into(), format!("order {:?}: compile_cnf after compile_cnf_with_assignments({:?}) on the same builder has models {:#x} (same diagram as the first compilation: {}), the CNF {:#x}", order, a, bdd_tt(r5, nv), r5 == r, f)));
+                            }
+                        }
+                        Err(p) => return Some(("bdd-cnf-panic".into(), format!("order {:?}: compile_cnf after compile_cnf_with_assignments({:?}) panicked: {}", order, a, p))),
+                    }
+                }
             }
         }
         // dtree plan with this order as elimination order
